@@ -292,6 +292,16 @@ Proof.
     destruct (Z.compare_spec y 11); try reflexivity; exfalso; lia.
 Qed.
 
+Lemma geb_mono v a b : a <= b -> tuple_geb v [3; a] = false -> tuple_geb v [3; b] = false.
+Proof.
+  intros Hab. unfold tuple_geb. destruct v as [|x [|y r]]; cbn [tuple_cmp].
+  - reflexivity.
+  - destruct (Z.compare_spec x 3); intros Hg; try discriminate; reflexivity.
+  - destruct (Z.compare_spec x 3); intros Hg; try discriminate; try reflexivity.
+    destruct (Z.compare_spec y a); [destruct r; discriminate| |discriminate].
+    destruct (Z.compare_spec y b); try reflexivity; exfalso; lia.
+Qed.
+
 Definition wf_code (T : optable) (R : reftable) (code : list Z) : bool :=
   let v := r_version R in
   if tuple_ltb v [3; 6] then wf_byte T R code 0
